@@ -514,6 +514,18 @@ def chaseStep (s : ChaseState) : ChaseEv → ChaseState
 
 def chaseRun (s : ChaseState) (evs : List ChaseEv) : ChaseState := evs.foldl chaseStep s
 
+/-- one level of the chase (`additionalAnswer` from `lookup:` to the last `goto lookup`): `fuel` is
+`cnameDepth`, `vis` the `targets` slice, `next` what the sub-query for a target reveals as the next
+alias target (the environment).  The result is the list of targets an internal exchange was started
+for, newest first. -/
+def chaseLevel (next : Nat → Option Nat) : Nat → List Nat → Nat → List Nat
+  | 0, vis, _ => vis
+  | d + 1, vis, t =>
+    if vis.contains t then vis            -- "Check for loops": SERVFAIL, no exchange
+    else match next t with
+      | none => t :: vis                  -- the target resolved (or failed) without a further alias
+      | some t' => chaseLevel next d (t :: vis) t'
+
 /-! ### failure classification and the over-budget reply -/
 
 /-- inputs of `cacheableResolutionFailure`. -/
